@@ -22,7 +22,7 @@ int Trace::compare(const Basic &o) const
 {
     SYMENGINE_ASSERT(is_a<Trace>(o));
 
-    return arg_->compare(*down_cast<const Trace &>(o).arg_);
+    return arg_->__cmp__(*down_cast<const Trace &>(o).arg_);
 }
 
 vec_basic Trace::get_args() const
